@@ -1371,6 +1371,31 @@ def counted_loops(repo, ref):
     for q, fi in repo.funcs.items():
         if fi.is_lambda or q not in ref:
             continue
+        # for n, x in enumerate(L, start=1)  ->  for n0, x in enumerate(L) with 1 + n0 for n   (n not rebound in the body, not used after)
+        for owner, field, blk in _blocks(fi.node):
+            for i, st in enumerate(blk):
+                if not (isinstance(st, ast.For) and isinstance(st.iter, ast.Call) and isinstance(st.iter.func, ast.Name) and st.iter.func.id == "enumerate"
+                        and isinstance(st.target, ast.Tuple) and len(st.target.elts) == 2 and isinstance(st.target.elts[0], ast.Name)):
+                    continue
+                c = st.iter
+                start = c.args[1] if len(c.args) == 2 and not c.keywords else c.keywords[0].value if len(c.args) == 1 and len(c.keywords) == 1 and c.keywords[0].arg == "start" else None
+                if not (isinstance(start, ast.Constant) and start.value == 1 and type(start.value) is int):
+                    continue
+                v = st.target.elts[0].id
+                inner = {id(x) for s_ in st.body + [st.target] for x in ast.walk(s_)}
+                if any(isinstance(x, ast.Name) and x.id == v and (id(x) not in inner or (isinstance(x.ctx, (ast.Store, ast.Del)) and x is not st.target.elts[0])) for x in walk_own(fi.node)) \
+                        or any(isinstance(x, ast.Lambda) and any(isinstance(y, ast.Name) and y.id == v for y in ast.walk(x.body)) for s_ in st.body for x in ast.walk(s_)):
+                    continue
+                v0 = "index" if "index" not in ({n for n, _ in _bound_names(fi.node)[0]} | set(fi.params)) else v + "0"
+                body = ast.parse("\n".join(ast.unparse(s_) for s_ in st.body))
+                body = _SubstNames({v: "(1 + %s)" % v0}).visit(body)
+                src = ast.unparse(body).replace("1 + %s - 1" % v0, v0)
+                new = _fresh_stmt("for %s, %s in enumerate(%s):\n    pass" % (v0, ast.unparse(st.target.elts[1]), ast.unparse(c.args[0])), st, owner)[0]
+                new.body = _fresh_stmt(src, st, new)
+                new.orelse = st.orelse
+                blk[i] = new
+                _invalidate(owner)
+                done.setdefault(q, []).append("enumerate start=1")
         int_tested = {norm_arg for n_ in walk_own(fi.node) if isinstance(n_, ast.Call) and isinstance(n_.func, ast.Name) and n_.func.id == "isinstance" and len(n_.args) == 2
                       and isinstance(n_.args[0], ast.Name) and ast.unparse(n_.args[1]) == "int" for norm_arg in [n_.args[0].id]}
         for owner, field, blk in _blocks(fi.node):
